@@ -6,7 +6,7 @@ import re
 
 from ..pycfg import CFG, walk_no_nested
 from ..pyflow import ReachingDefs
-from ..source import AnalysisError, find_function, find_class, first_line, src, functions, qualname
+from ..source import atoms, atom_key, truth, side, AnalysisError, find_function, find_class, first_line, src, functions, qualname
 
 BASIC = "nemoguardrails/embeddings/basic.py"
 CACHE = "nemoguardrails/embeddings/cache.py"
@@ -202,8 +202,16 @@ def c_cache(ctx):
     fname = deco.args.args[0].arg
     unit = "cache_embeddings.%s" % w.name
     # disabled path
-    dis = [n for n in ast.walk(w) if isinstance(n, ast.If) and "enabled" in src(n.test) and isinstance(n.test, ast.UnaryOp)]
-    ok = bool(dis) and any(isinstance(s, ast.Return) and re.sub(r"\s", "", src(s.value)) == "await%s(self,%s)" % (fname, texts) for s in dis[0].body)
+    # the side taken when the `enabled` flag is false returns the undecorated call (either polarity of the test)
+    ok = False
+    for n in ast.walk(w):
+        if isinstance(n, ast.If):
+            en = [a_ for a_ in atoms(n.test) if "enabled" in src(a_)]
+            if not en:
+                continue
+            v = truth(n.test, {atom_key(en[0])[0]: False})
+            if v is not None and any(isinstance(s, ast.Return) and s.value is not None and re.sub(r"\s", "", src(s.value)) == "await%s(self,%s)" % (fname, texts) for s in side(n, v)):
+                ok = True
     ctx.check("C19.c.cache", CACHE, unit, "disabled path", ok, "with the cache disabled the model's result for the whole input is returned unchanged", line=w.lineno)
     calls = [a for a in ast.walk(w) if isinstance(a, ast.Assign) and isinstance(a.value, ast.Await) and isinstance(a.value.value, ast.Call) and src(a.value.value.func) == fname]
     ok = len(calls) == 1
